@@ -146,8 +146,16 @@ def item_alts(ctx, item):
         body = item.s
         # split top-level alternatives
         parts = split_alt(body)
-        ok = len(parts) == 4 and len(labs) == 4 and 'Defined' in labs[0] and 'Enum' in labs[0] and 'Type' in labs[1] and 'Predefined' in labs[2] and 'Extern' in labs[3] \
-            and parts[2].strip() == '' and parts[3].strip() == '' and ' enum ' in parts[0] and ' struct ' in parts[1]
+        ok = False
+        if len(parts) == len(labs) and len(parts) >= 3:
+            en = [i for i, p_ in enumerate(parts) if ' enum ' in p_]
+            st = [i for i, p_ in enumerate(parts) if ' struct ' in p_ and i not in en]
+            rest = [i for i in range(len(parts)) if i not in en + st]
+            cats = set()
+            for i in rest:
+                cats |= set(re.findall(r'=(\w+)', labs[i]))
+            ok = len(en) == 1 and len(st) == 1 and 'Defined' in labs[en[0]] and 'Enum' in labs[en[0]] and 'Defined' in labs[st[0]] and 'Type' in labs[st[0]] \
+                and all(parts[i].strip() == '' for i in rest) and cats == {'Predefined', 'Extern'} and not any('Defined' in re.findall(r'=(\w+)', labs[i]) for i in rest)
         item.parts = parts
     ctx.ob(['C14', 'C13'], 'R-MATCH', 'item|categories', ok, 'a Defined type emits a struct, a Defined enum an enum, Predefined and Extern items emit nothing: %s' % [str(x)[:60] for x in det], loc(item.f.span))
 
@@ -664,8 +672,10 @@ def fmt_text(e):
 
 def type_printer(ctx):
     P = ctx.prog
-    fs = [f for f in P.fns.values() if f.id.endswith('backends::rust::fully_qualified_type_ref_impl')]
-    if not fs:
+    # anchor by role: the function of the backend that writes a semantic Type into a String
+    fs = [f for f in P.fns.values() if f.kind != 'Closure' and f.id.startswith('backends::') and
+          [re.sub(r"'\w+ ", '', t_) for t_ in f.raw.get('inputs', [])] == ['&mut std::string::String', '&semantic::types::Type'] and 'fmt::Error' in f.raw.get('output', '')]
+    if len(fs) != 1:
         ctx.fail_closed(['C11', 'C16', 'C13'], 'R-ANCHOR', 'TYPE', 'type printer not found')
         return
     f = fs[0]
